@@ -32,6 +32,7 @@ class Session:
         self.pending_insert_id = None
         self.txn_epoch = 0
         self.closed = False
+        self.uv_trace = None
 
 
 class Result:
